@@ -1,7 +1,6 @@
 package vt
 
 import (
-	"os/exec"
 	"context"
 	"encoding/json"
 	"errors"
@@ -12,6 +11,7 @@ import (
 	"net/http/httptest"
 	"net/netip"
 	"os"
+	"os/exec"
 	"sort"
 	"strconv"
 	"strings"
